@@ -10,6 +10,9 @@
 // ns=1: the std:: column of the line is `*` and std::chrono is not called (inputs on which libstdc++ has undefined behaviour,
 // or a result the standard does not sanction: the known findings of the property, see checks/props/c12.py).
 // rs is the type of the scalar operand of duration * rep, rep * duration, duration / rep, duration % rep (default: r1).
+// adda2 / moda2 / tp_adda2: `D1 x{a}; x += D2{b}; x -= D2{b}` / `x %= D2{b}` / the same `+=`, `-=` of time_point<Clock, D1>: compound
+// assignment with a duration of ANOTHER type (converted by the implicit converting constructor; `n/a` when it does not take part).
+// Representation pairs: see rc_of (i32/i64 mixtures, f64, the narrow and unsigned ones, and unsigned / narrow next to wider).
 // If one of the free functions of [time.duration.nonmember] / [time.point.nonmember] is not declared (a requires-expression
 // checks it) the harness still compiles and prints `missing` for that operation: a violation, not a build failure.
 #include "proto.hpp"
